@@ -43,6 +43,10 @@ PROPS = {
             "assumptions": ["exact tier: separable quadratics d in {(4,1),(2,2),(8,1),(4,0),(1,8)}, g in {0,l1,l2^2,box}, alpha in {1/L, 1/(2L)}, 3 updates", "trace tier: n 4..40, real/complex, Nesterov's worst-case quadratic, scalar and array-valued steps, strong-convexity acceleration; slack 1e-6",
                             "the Fejer-monotone distance is the M-norm of (x_{k-1}, u_k) (sigpy updates the dual first): see DESIGN.md C13"],
             "trusted": TLC_BASE + ["Rat.tla", "numpy for objective / norm evaluation in the trace tier"]},
+    "C05": {"level": "model_checking", "engines": [("fourier", "fourier", "run")],
+            "rule": "one case per TLC state of Fourier.tla (shape, axes as written incl. negative indices, center, norm, oshape, direction), each replayed with complex128, complex64, float64 and delta inputs; non-trivial = some axis longer than 1",
+            "assumptions": ["shapes: rank 1 to 8, rank 2 to 4x4, selected rank 3 and 4 (thorough: larger families)", "oshape changes per axis in {-1, 0, +2}, only with center=True", "tolerance 1e-10 (complex128) / 2e-5 (complex64 and real input)"],
+            "trusted": TLC_BASE + ["numpy.exp for realising roots of unity"]},
     "C09": {
         "level": "model_checking",
         "engines": [("index_maps", "index_maps", "run")],
@@ -57,6 +61,8 @@ PROPS = {
 HOOK_COMMITS = ["609775d"]
 
 ENGINES = [
+    {"name": "fourier", "path": "harness/engines/fourier.py + spec/Fourier.tla", "serves_properties": ["C05"],
+     "kind_free_text": "TLC enumeration of fft/ifft configurations with exact exponent laws + replay against explicit DFT matrices"},
     {"name": "descent", "path": "harness/engines/descent.py + spec/ProxGrad.tla, spec/DescentTrace.tla", "serves_properties": ["C13", "C15"],
      "kind_free_text": "TLC on exact proximal-gradient trajectories + replay; trace validation of accelerated / primal-dual runs against rate, Fejer and fixed-point conditions"},
     {"name": "lls", "path": "harness/engines/lls.py + spec/LLS.tla", "serves_properties": ["C14"],
@@ -109,7 +115,7 @@ MANIFEST_TEXT = {
 }
 
 NOT_APPLICABLE = {p: "check not built yet in this round (planned, see DESIGN.md section 5)" for p in
-                  ["C05", "C06", "C07", "C08", "C10", "C16", "C17", "C19"]}
+                  ["C06", "C07", "C08", "C10", "C16", "C17", "C19"]}
 
 MANIFEST_TEXT["C18"] = {
     "text": "PoissonSearch.tla models the slope bisection on a float lattice with an arbitrary (non-monotone) acceleration function; TLC checks OkIsWithinTol and the liveness property Terminates (the loop without the collapse test is kept as a negative control that must fail). poisson() is run on the real code with _poisson wrapped under a watchdog; every call (probes as slope ranks + integer facts about the mask, RNG state crc, reproducibility memo) is validated by TLC against PoissonTrace.tla.",
@@ -140,3 +146,9 @@ MANIFEST_TEXT["C13"] = {
     "design_ref": "DESIGN.md section 5 C13",
     "note": "Level is model_checking for the exact tier and the trace protocol; the rate clauses of the accelerated variants are numeric (exploration-grade) because theta = 1/sqrt(1+2*gamma*tau) is irrational. Trusted: numpy norms, problem construction around a known minimiser.",
     "technique": "TLA+ exact trajectories (TLC) + replay + trace validation of convergence-rate and Fejer conditions"}
+
+MANIFEST_TEXT["C05"] = {
+    "text": "Fourier.tla states the DFT-matrix meaning of every fft/ifft call (centred pad/crop from ElementMaps, per-axis exponent (k-c)(n-c) mod m, sign, scaling, numpy axis normalisation) and TLC checks on integer exponents that W^H W = m I (cancellation of roots of unity), the centre convention, conjugate inverse and the pad/crop map for every enumerated configuration. Each configuration is replayed on sigpy.fft/ifft against explicit DFT matrices for complex128, complex64, real and delta inputs, plus round trip, norm preservation and the dtype rule.",
+    "design_ref": "DESIGN.md section 5 C05",
+    "note": "Trusted: TLC, numpy.exp / tensordot for the reference. numpy's FFT kernel accuracy assumed 1e-10.",
+    "technique": "TLA+ exponent-matrix spec (TLC exhaustive) + spec-to-code replay"}
